@@ -1,6 +1,7 @@
 package sim
 
 import (
+	"encoding/json"
 	"fmt"
 	"math"
 	"math/big"
@@ -163,6 +164,10 @@ func (g *Gen) fill(kind string, p *Program) Op {
 		op.I = []int64{variant, g.slot(nRecv)}
 		if variant == 2 {
 			f := "%" + string("eEfFgGv"[g.R.N(7)])
+			if g.R.P(1, 3) {
+				// a width cuts the token after that many runes
+				f = "%" + fmt.Sprint(g.R.Range(1, len(tok)+3)) + string("eEfFgGv"[g.R.N(7)])
+			}
 			if g.R.P(1, 10) {
 				f = "%" + string("dsxqc"[g.R.N(5)])
 			}
@@ -257,7 +262,7 @@ func (g *Gen) jsonNumberLit() string {
 	if g.R.P(1, 3) {
 		b.WriteByte('-')
 	}
-	if g.R.P(1, 6) {
+	if g.R.P(1, 5) {
 		b.WriteByte('0')
 	} else {
 		b.WriteString(g.digits(g.litLen()))
@@ -417,6 +422,71 @@ func sortPre(p []Preempt) {
 			p[j], p[j-1] = p[j-1], p[j]
 		}
 	}
+}
+
+// GenerateFocus builds a P20 program that concentrates on a few operation
+// kinds (those that reach package-level state the pinned tree does not
+// have): few operands drawn from small sweeps so that calls collide on
+// their arguments, and two or three epochs that repeat the same calls under
+// different rounding modes. Such a program is executed in two fresh
+// processes, once with its epochs in order and once reversed; the results of
+// an epoch must not depend on which epochs ran before it.
+func GenerateFocus(prof *Profile, seed, run uint64, kinds []string) (*Program, *Gen) {
+	g := &Gen{R: NewRng(seed, run, prof.Name+"/focus")}
+	p := &Program{Profile: prof.Name, Seed: seed, Run: run}
+	g.sharedPool(p, 2000)
+	// sweep operands
+	n := g.R.Range(5, 10)
+	for i := 0; i < n; i++ {
+		var lit string
+		k := g.R.Range(-70, 70)
+		switch g.R.N(6) {
+		case 0:
+			lit = fmt.Sprintf("%d.5", k)
+		case 1:
+			lit = fmt.Sprintf("%de%d", k, g.R.Range(-3, 3))
+		case 2:
+			lit = fmt.Sprintf("%d", 1<<uint(g.R.N(40)))
+		default:
+			lit = fmt.Sprint(k)
+		}
+		if g.R.P(1, 2) {
+			g.decs = append(g.decs, g.cohortMember(lit))
+		} else {
+			g.decs = append(g.decs, parseLitForGen(lit))
+		}
+	}
+	g.decs = append(g.decs, g.Dec())
+	for i := 0; i < 3; i++ {
+		g.lits = append(g.lits, g.Literal(false))
+	}
+	use := kinds
+	if len(use) > 4 {
+		use = nil
+		for i := 0; i < 4; i++ {
+			use = append(use, kinds[g.R.N(len(kinds))])
+		}
+	}
+	tasks := g.tasksOf(p, g.R.Range(1, 2), 8, use, nil)
+	m1 := uint8(g.R.N(6))
+	m2 := uint8(g.R.N(6))
+	for m2 == m1 {
+		m2 = uint8(g.R.N(6))
+	}
+	if g.R.P(1, 2) {
+		m1, m2 = 0, uint8(g.R.Range(1, 5))
+	}
+	modes := []uint8{m1, m2}
+	if g.R.P(1, 2) {
+		modes = append(modes, m1)
+	}
+	for _, m := range modes {
+		ep := Epoch{Mode: m}
+		b, _ := json.Marshal(tasks)
+		json.Unmarshal(b, &ep.Tasks)
+		p.Epochs = append(p.Epochs, ep)
+	}
+	return p, g
 }
 
 // Generate builds the Program of (profile, seed, run) without a schedule.
